@@ -5,7 +5,9 @@
      (or, if none are named, all unsigned) positions changed; no non-null
      signature was overwritten; every new signature is non-null and verifies
      against the owner's address; untouched positions keep their state,
-   - an xpub or encrypted wallet never signs,
+   - an xpub or encrypted wallet never signs; a transaction whose InnerHash field
+     is not the hash of its body (null, another transaction's, corrupted) is
+     never signed; signatures are verified over the FINAL inner hash,
    - no panic when the signature array matches the inputs. *)
 Definition old_null (t : stx) (i : Z) : bool :=
   match znth (s_sigs t) i with Some s => s =? 0 | None => false end.
@@ -18,6 +20,7 @@ Definition pf_sign := Eval vm_compute in
     | Val (inl _) => true
     | Val (inr l) =>
         kept &&
+        (s_inner t =? s_inner_actual t) &&                           (* only a transaction whose InnerHash is the hash of its body is signed *)
         negb (match w_kind w with KXPub => true | _ => false end) && negb (w_encrypted w) &&
         (len l =? len (s_sigs t)) &&
         let tg := targets t idxs in
